@@ -68,7 +68,30 @@ def _is_sparse_expr(expr):
     return False
 
 
-def _is_basic_index(idx):
+FANCY_MAKERS = ('np.where', 'np.argwhere', 'np.arange', 'np.unique', 'np.array', 'np.flatnonzero',
+                'np.nonzero', 'np.argsort', 'numpy.where', 'numpy.arange', 'list', 'sorted')
+
+
+def _fancy_value(v):
+    """an expression that denotes an index *array* (boolean mask or integer array / list)"""
+    if isinstance(v, (ast.Compare, ast.List, ast.ListComp)):
+        return True
+    if isinstance(v, ast.BinOp) and isinstance(v.op, (ast.BitAnd, ast.BitOr)):
+        return True
+    if isinstance(v, ast.UnaryOp) and isinstance(v.op, ast.Invert):
+        return True
+    if isinstance(v, ast.Subscript):
+        return _fancy_value(v.value)
+    if isinstance(v, ast.Call):
+        cn = call_name(v)
+        if cn in FANCY_MAKERS:
+            return True
+        if isinstance(v.func, ast.Attribute) and v.func.attr in ('flatten', 'astype', 'ravel', 'reshape'):
+            return _fancy_value(v.func.value)
+    return False
+
+
+def _is_basic_index(idx, fa=None):
     """Basic (view-producing) numpy indexing: ints, slices, Ellipsis, None, tuples of those."""
     if isinstance(idx, ast.Slice):
         return True
@@ -78,8 +101,13 @@ def _is_basic_index(idx):
     if isinstance(idx, ast.UnaryOp) and isinstance(idx.operand, ast.Constant):
         return True
     if isinstance(idx, ast.Tuple):
-        return all(_is_basic_index(e) for e in idx.elts)
+        return all(_is_basic_index(e, fa) for e in idx.elts)
     if isinstance(idx, ast.Name):
+        if fa is not None:
+            vals = fa.bindings.get(idx.id, [])
+            if vals and idx.id not in fa.params and idx.id not in fa.elem_bindings and \
+                    all(_fancy_value(v) for v in vals):
+                return False      # a named mask / index array: advanced indexing copies
         return True       # unknown: may be an int -> conservatively a view
     return False
 
@@ -157,6 +185,7 @@ class FuncAccess(MustFlow):
             self._bind(target.value, value, elem=True)
 
     def _collect_bindings(self):
+        comp_targets = []
         for n in walk_no_nested(self.fi.node):
             if isinstance(n, ast.Assign):
                 for t in n.targets:
@@ -177,7 +206,15 @@ class FuncAccess(MustFlow):
                 self._bind(n.target, n.value)
             elif isinstance(n, (ast.ListComp, ast.SetComp, ast.GeneratorExp, ast.DictComp)):
                 for g in n.generators:
-                    self._bind(g.target, g.iter, elem=True)
+                    comp_targets.append((g.target, g.iter))
+        # comprehension variables live in their own scope: bind them only when the name is not also
+        # a variable of the function itself (otherwise the function-level name would inherit origins
+        # of a different variable)
+        for tgt, it in comp_targets:
+            names = {x.id for x in ast.walk(tgt) if isinstance(x, ast.Name)}
+            if names & (set(self.bindings) | set(self.elem_bindings) | set(self.params)):
+                continue
+            self._bind(tgt, it, elem=True)
 
     # ------------------------------------------------------------------- origins (may)
     def origins(self, expr, _seen=None, rebound=frozenset()):
@@ -220,7 +257,7 @@ class FuncAccess(MustFlow):
             return out
         if isinstance(expr, ast.Subscript):
             base = self.origins(expr.value, _seen, rebound)
-            if _is_sparse_expr(expr.value) or not _is_basic_index(expr.slice):
+            if _is_sparse_expr(expr.value) or not _is_basic_index(expr.slice, self):
                 # copy semantics -- except containers (lists/dicts) indexed by a Name/constant,
                 # which _is_basic_index already treats as "view"
                 return {('fresh',)}
@@ -299,7 +336,7 @@ class FuncAccess(MustFlow):
         if isinstance(expr, ast.Subscript):
             if _is_sparse_expr(expr.value):
                 return True
-            if not _is_basic_index(expr.slice):
+            if not _is_basic_index(expr.slice, self):
                 return True
             return self.is_fresh(expr.value, state)
         if isinstance(expr, ast.Call):
@@ -399,6 +436,8 @@ class FuncAccess(MustFlow):
             t = node.target
             if isinstance(t, ast.Subscript):
                 self._emit(node, 'subscript-store', t.value, state)
+            elif isinstance(t, ast.Name) and self._rebinding_augassign(t.id, node.op, state):
+                pass          # an object of a package class without __i<op>__: `x op= v` is `x = x op v`
             else:
                 self._emit(node, 'augassign', t, state)
         elif isinstance(node, ast.Delete):
@@ -431,6 +470,29 @@ class FuncAccess(MustFlow):
                 if cn.startswith(NP_PREFIXES):
                     continue
                 self._emit(n, 'call:' + n.func.attr, n.func.value, state)
+
+    def _rebinding_augassign(self, name, op, state):
+        from .flow import clauses_of
+        dunder = {ast.Add: '__iadd__', ast.Sub: '__isub__', ast.Mult: '__imul__', ast.MatMult: '__imatmul__',
+                  ast.Div: '__itruediv__', ast.Pow: '__ipow__'}.get(type(op))
+        if dunder is None:
+            return False
+        for c in clauses_of(state):
+            if len(c) != 1:
+                continue
+            atom, pol = next(iter(c))
+            if not pol or not atom.startswith('isinstance(%s, ' % name):
+                continue
+            try:
+                call = ast.parse(atom, mode='eval').body
+            except SyntaxError:
+                continue
+            cls_expr = call.args[1]
+            names = [e for e in (cls_expr.elts if isinstance(cls_expr, ast.Tuple) else [cls_expr])]
+            infos = [self.repo.resolve_name(self.fi.module, e.id) if isinstance(e, ast.Name) else None for e in names]
+            if infos and all(isinstance(ci, ClassInfo) and self.repo.resolve_method(ci, dunder) is None for ci in infos):
+                return True
+        return False
 
     def _store_target(self, t, state, kind):
         if isinstance(t, ast.Subscript):
